@@ -313,7 +313,7 @@ def _rand_chunk(arg):
     rnd = random.Random(seed * 1000003 + block)
     col = Collector()
     nontriv = 0
-    tag = "ZC04V%d_%d_" % (os.getpid(), block)
+    tag = "ZC04V%d_%d_" % (seed, block)
     seen = set()
     for _ in range(count):
         names = [_rand_name(rnd) for _ in range(rnd.randrange(1, 5))]
